@@ -275,7 +275,8 @@ def prepare_canaries(unit, workdir):
                 c = copy.copy(fn)
                 c.rename = "%s_canary%d" % (fn.name, i)
                 tag = "canary:%s:%s" % (fn.qual, pt)
-                c.hints = list(fn.hints) + [gen.Hint(pt, "assert(false);", tag)]
+                opt = pt.startswith("loop:") and getattr(fn.loops.get(int(pt.split(":")[1])), "optional", False)
+                c.hints = list(fn.hints) + [gen.Hint(pt, "assert(false);", tag, optional=opt)]
                 nf.append(c)
                 expect.append(tag)
         groups.append((header, nf))
@@ -300,6 +301,8 @@ def prepare_canaries(unit, workdir):
     path = os.path.join(workdir, unit.name + "_canary.rs")
     with open(path, "w") as f:
         f.write(g.text)
+    # reachability points of optional loops that the current source does not have produce no canary
+    expect = [t for t in expect if ("//@@hint:%s" % t) in g.text]
     return (g, path, expect)
 
 
